@@ -274,7 +274,11 @@ def slug(text, n=48):
 def self_consistency(res):
     """Rules that hold for any single exploration run with max-errors:-1, whatever the reduction:
     the exit status and the printed reports agree with the terminal states the application really reached.
-    Returns [(rule, detail, text)]."""
+    Returns [(rule, detail, text)].
+      abort        the checker (or the application) died: exit status outside {0, 2}
+      unreported   the application reached a deadlocked / assertion-failing state in this very run, no report printed
+      spurious     a report of a kind of failure that the application did not reach in this run
+      status       exit status inconsistent with the reports that were printed"""
     out = []
     kinds = set(r.kind for r in res.records)
     d, a, c = reports(res)
@@ -282,27 +286,31 @@ def self_consistency(res):
         out.append(("abort", "rc%s:%s" % (res.rc, slug(res.aborted)), "simgrid-mc ended with status %s: %s" % (res.rc, res.aborted)))
         return out
     if "DEADLOCK" in kinds and d == 0:
-        out.append(("verdict", "deadlock-unreported", "the application reached a deadlocked terminal state in this very exploration "
-                    "but no DEADLOCK DETECTED report was printed"))
+        out.append(("unreported", "deadlock", "the application reached a deadlocked terminal state in this very exploration "
+                    "but no deadlock report was printed"))
     if "DEADLOCK" not in kinds and d > 0:
-        out.append(("verdict", "deadlock-invented", "a deadlock was reported but the application never reached a terminal state "
+        out.append(("spurious", "deadlock", "a deadlock was reported but the application never reached a terminal state "
                     "with live, disabled actors"))
     if "ASSERT" in kinds and a == 0:
-        out.append(("verdict", "assert-unreported", "an MC_assert failed in this very exploration but no PROPERTY NOT VALID report was printed"))
+        out.append(("unreported", "assert", "an MC_assert failed in this very exploration but no PROPERTY NOT VALID report was printed"))
     if "ASSERT" not in kinds and a > 0:
-        out.append(("verdict", "assert-invented", "an assertion failure was reported but no MC_assert of the application failed"))
+        out.append(("spurious", "assert", "an assertion failure was reported but no MC_assert of the application failed"))
     if c > 0:
-        out.append(("verdict", "crash-reported", "a crash of the application was reported (the generated programs do not crash)"))
+        out.append(("spurious", "crash", "a crash of the application was reported (the generated programs do not crash)"))
     errors = d + a + c
     if errors > 0 and res.rc == 0:
-        out.append(("verdict", "rc0-with-errors", "%d deadlock / %d assertion report(s) were printed but the exit status is 0 (success)" % (d, a)))
+        out.append(("status", "rc0-with-errors", "%d deadlock / %d assertion report(s) were printed but the exit status is 0 (success)" % (d, a)))
     if errors == 0 and res.rc != 0:
-        out.append(("verdict", "rc%s-without-error" % res.rc, "exit status %s without any error report" % res.rc))
+        out.append(("status", "rc%s-without-error" % res.rc, "exit status %s without any error report" % res.rc))
     return out
 
 
 def compare(ref, res):
-    """Differential rules of one configuration against the reference exploration. Returns [(rule, detail, text)]."""
+    """Differential rules of one configuration against the reference exploration. Returns [(rule, detail, text)].
+      lost           terminal outcomes of the reference that this configuration never reaches (detail: their kinds)
+      lost-verdict   a kind of failure is reachable (reference) and this configuration reports none of that kind
+      invented       terminal outcomes that the reference never reaches
+      spurious-verdict  a kind of failure is reported that is not reachable"""
     out = []
     ro, co = ref.outcomes(), res.outcomes()
     lost, inv = ro - co, co - ro
@@ -318,19 +326,16 @@ def compare(ref, res):
                     % (len(inv), ex[0], ex[1])))
     rk = set(k for k, _ in ro)
     d, a, c = reports(res)
-    # verdict: deadlock / assertion failure reported iff reachable (reference)
     if "DEADLOCK" in rk and d == 0:
-        out.append(("verdict", "deadlock-missed", "a deadlock is reachable (found without reduction) but none is reported"))
+        out.append(("lost-verdict", "deadlock", "a deadlock is reachable (found without reduction) but none is reported%s"
+                    % (": exit status 0" if res.rc == 0 else "")))
     if "ASSERT" in rk and a == 0:
-        out.append(("verdict", "assert-missed", "an assertion failure is reachable (found without reduction) but none is reported"))
+        out.append(("lost-verdict", "assert", "an assertion failure is reachable (found without reduction) but none is reported%s"
+                    % (": exit status 0" if res.rc == 0 else "")))
     if "DEADLOCK" not in rk and d > 0:
-        out.append(("verdict", "deadlock-spurious", "a deadlock is reported but none is reachable"))
+        out.append(("spurious-verdict", "deadlock", "a deadlock is reported but none is reachable"))
     if "ASSERT" not in rk and a > 0:
-        out.append(("verdict", "assert-spurious", "an assertion failure is reported but none is reachable"))
-    if (rk & {"DEADLOCK", "ASSERT"}) and res.rc == 0:
-        out.append(("verdict", "rc0-but-failure-reachable", "exit status 0 although a deadlock / assertion failure is reachable"))
-    if not (rk & {"DEADLOCK", "ASSERT"}) and res.rc not in (0, None):
-        out.append(("verdict", "rc%s-but-no-failure" % res.rc, "exit status %s although no failure is reachable" % res.rc))
+        out.append(("spurious-verdict", "assert", "an assertion failure is reported but none is reachable"))
     return out
 
 
@@ -358,7 +363,7 @@ def default_mode_rules(ref, res):
         out.append(("abort", "rc%s:%s" % (res.rc, slug(res.aborted)), "simgrid-mc ended with status %s: %s" % (res.rc, res.aborted)))
         return out
     if failing and res.rc == 0:
-        out.append(("default", "rc0-but-failure-reachable", "exit status 0 (no error found) although a %s is reachable"
+        out.append(("lost-default", "rc0", "exit status 0 (no error found) although a %s is reachable"
                     % " and a ".join(sorted(k.lower() for k in rk & {"DEADLOCK", "ASSERT"}))))
     if not failing and res.rc != 0:
         out.append(("default", "rc%d-but-no-failure" % res.rc, "exit status %d although no failure is reachable" % res.rc))
